@@ -33,16 +33,20 @@ TRUSTED_BASE = [
     "Python str.split/int/print semantics restricted to ASCII digits, blanks and lower-case letters (load model)",
 ]
 ASSUMPTIONS = [
-    "Hiso: is_isomorphic(g, h) is True exactly when g and h are isomorphic with matching element labels; the 5 s "
-    "timeout (returns False) is runtime behaviour outside the model - timed-out cases are discarded and counted",
-    "graphs are simple (duplicate-free unordered edge lists, endpoints are nodes); atom_class is None and no edge is active",
+    "Hiso: is_isomorphic(g, h) is True exactly when g and h are isomorphic with matching element labels and atom classes; "
+    "every logged answer is validated on each run against networkx isomorphism on independently built graphs (finding key "
+    "Hiso:is_isomorphic-disagrees-with-networkx); the 5 s timeout (returns False) is runtime behaviour outside the model - "
+    "timed-out cases are discarded and counted",
+    "graphs are simple (duplicate-free unordered edge lists, endpoints are nodes); no edge is active",
     "completeness is stated for products NOT isomorphic to the reactant (the code returns None by design for isomorphic "
     "reactant/product with more than 3 atoms)",
     "file-name mismatch between saving ({name}_BRs.txt) and reloading ({name}_bond_rearrangs.txt) is outside the "
     "property (round trip is about one file)",
 ]
 RULE = ("reactants: random molecules of 2-12 atoms incl. H (1-2 molecules, elements H B C N O F S Cl) with explicit bond "
-        "lists; edits: random and (thorough) exhaustive valence-respecting edits with <=2 breaking / <=2 forming bonds and "
+        "lists, plus directed families: a centre at maximal valence in both breaking and both forming bonds (geminal double "
+        "substitution, up to 3 molecules), bridged bicyclic skeletons with unequal bridges, atom-class labelled species "
+        "(identity SN2, labelled H exchange, sprinkled classes); edits: random and (thorough) exhaustive valence-respecting edits with <=2 breaking / <=2 forming bonds and "
         "net loss 0..2, plus out-of-premise edits (over-valent, 3 bonds, net gain, foreign element); product = edited "
         "graph under a random atom permutation with shuffled edge order; a case is non-trivial when the enumeration "
         "issues at least one candidate isomorphism query; distinct by (reactant, edit, permutation, skip flag)")
@@ -52,7 +56,7 @@ PRE = ("From Coq Require Import String Ascii.\nFrom Coq Require Import Arith Lis
        "From AV.lib Require Import QcInst.\nFrom AV.C04 Require Import Model Corr.\nImport ListNotations.\n"
        "Open Scope list_scope.\nOpen Scope nat_scope.\n")
 
-ELEMS = ["H", "B", "C", "N", "O", "F", "S", "Cl"]
+ELEMS = ["H", "B", "C", "N", "O", "F", "S", "Cl"]      # random generator; directed families also use Si Br I
 CHEM_VAL = {"H": 1, "B": 3, "C": 4, "N": 3, "O": 2, "F": 1, "S": 2, "Cl": 1}
 QUERY_CAP_QUICK = 500
 QUERY_CAP_THOROUGH = 2500
@@ -185,6 +189,17 @@ def flat_reactant(reac):
     return syms, edges
 
 
+def flat_classes(reac):
+    """atom classes (None | int) of the reactant atoms, in flat atom order"""
+    n = sum(len(m[0]) for m in reac["mols"])
+    return list(reac.get("classes") or [None] * n)
+
+
+def cls_code(c):
+    """Coq code of an atom class: 0 = None"""
+    return 0 if c is None else int(c) + 1
+
+
 def degrees(n, edges):
     d = [0] * n
     for a, b in edges:
@@ -226,22 +241,25 @@ def type_pattern(syms, bb, fb):
     return "".join(f"({x},{y})" for x, y in sorted(cnt.values(), reverse=True))
 
 
-def make_product(rng, syms, edges, bb, fb, extra=None):
-    """edited graph under a random permutation; shuffled edge order and orientation"""
+def make_product(rng, syms, edges, bb, fb, extra=None, classes=None):
+    """edited graph under a random permutation; shuffled edge order and orientation; atom classes travel
+    with their atoms"""
     n = len(syms)
+    classes = list(classes) if classes else [None] * n
     new = [e for e in norm_edges(edges) if e not in norm_edges(bb)] + norm_edges(fb)
     perm = list(range(n))
     rng.shuffle(perm)                       # reactant atom i -> product atom perm[i]
-    psyms = [None] * n
+    psyms, pcls = [None] * n, [None] * n
     for i in range(n):
         psyms[perm[i]] = syms[i]
+        pcls[perm[i]] = classes[i]
     pedges = [[perm[a], perm[b]] for a, b in new]
     rng.shuffle(pedges)
     pedges = [e if rng.random() < 0.5 else e[::-1] for e in pedges]
     if extra == "foreign-element":
         k = rng.randrange(n)
         psyms[k] = rng.choice([s for s in ["Si", "P", "Br", "I"]])
-    return {"syms": psyms, "bonds": pedges, "perm": perm}
+    return {"syms": psyms, "bonds": pedges, "perm": perm, "classes": pcls}
 
 
 def gen_case(rng, max_atoms, kind):
@@ -271,6 +289,210 @@ def gen_case(rng, max_atoms, kind):
     return None
 
 
+def _finish_case(rng, mols, bb, fb, family, classes=None, shuffle=True):
+    """assemble a premise case from explicit molecules (atom order inside each molecule is shuffled)"""
+    mols2, maps, off = [], [], 0
+    for syms, bonds in mols:
+        k = len(syms)
+        perm = list(range(k))
+        if shuffle:
+            rng.shuffle(perm)
+        ns = [None] * k
+        for i in range(k):
+            ns[perm[i]] = syms[i]
+        nb = [[perm[a], perm[b]] for a, b in bonds]
+        rng.shuffle(nb)
+        nb = [e if rng.random() < 0.5 else e[::-1] for e in nb]
+        mols2.append((ns, nb))
+        maps += [off + perm[i] for i in range(k)]
+        off += k
+    n = off
+    coords = []
+    while len(coords) < n:
+        c = [round(rng.uniform(-4, 4), 3) for _ in range(3)]
+        if all(sum((a - b) ** 2 for a, b in zip(c, d)) > 0.3 for d in coords):
+            coords.append(c)
+    reac = {"mols": mols2, "coords": coords}
+    if classes:
+        cl = [None] * n
+        for i, c in enumerate(classes):
+            cl[maps[i]] = c
+        reac["classes"] = cl
+    case = {"reac": reac, "bb": [[maps[a], maps[b]] for a, b in bb], "fb": [[maps[a], maps[b]] for a, b in fb],
+            "kind": "premise", "family": family}
+    syms, edges = flat_reactant(reac)
+    if not premise_ok(syms, edges, case["bb"], case["fb"], MAXVAL):
+        return None
+    case["prod"] = make_product(rng, syms, edges, case["bb"], case["fb"], classes=flat_classes(reac))
+    return case
+
+
+def gen_geminal(rng):
+    """a centre atom AT its maximal valence that takes part in BOTH breaking and BOTH forming bonds
+    (geminal double substitution  X2CR2 + 2 Y -> Y2CR2 + 2 X), 2b2f; also the 2b1f / 1b1f analogues"""
+    for _ in range(50):
+        centre = rng.choice(["C", "C", "C", "Si", "B", "N", "O"])
+        mv = MAXVAL[centre]
+        subs = [rng.choice(["H", "H", "F", "Cl", "Br", "Me", "I"]) for _ in range(mv)]
+        syms, bonds = [centre], []
+        sub_idx = []
+        for sb in subs:
+            if sb == "Me" and len(syms) <= 5:
+                c = len(syms)
+                syms.append("C")
+                bonds.append((0, c))
+                for _h in range(3):
+                    syms.append("H")
+                    bonds.append((c, len(syms) - 1))
+                sub_idx.append(c)
+            else:
+                syms.append("H" if sb == "Me" else sb)
+                bonds.append((0, len(syms) - 1))
+                sub_idx.append(len(syms) - 1)
+        shape = rng.choice([(2, 2), (2, 2), (2, 2), (2, 1), (1, 1)])
+        leaving = rng.sample(sub_idx, shape[0])
+        n1 = len(syms)
+        mode = rng.choice(["atoms", "atoms", "molecule"])
+        if mode == "atoms" or shape[1] == 1:
+            ys = [rng.choice(["F", "Cl", "Br", "I", "H", "O", "N"]) for _ in range(shape[1])]
+            mols = [(syms, bonds)] + [([y], []) for y in ys]
+            yidx = [n1 + i for i in range(len(ys))]
+        else:       # one molecule with two unsaturated atoms (peroxide / hydrazine like)
+            y = rng.choice(["O", "N", "S"])
+            m2s, m2b = [y, y], [(0, 1)]
+            for a in (0, 1):
+                for _h in range(rng.choice([0, 1])):
+                    m2s.append("H")
+                    m2b.append((a, len(m2s) - 1))
+            mols = [(syms, bonds), (m2s, m2b)]
+            yidx = [n1, n1 + 1]
+        if sum(len(m[0]) for m in mols) > 12:
+            continue
+        bb = [(0, x) for x in leaving]
+        fb = [(0, y) for y in yidx]
+        case = _finish_case(rng, mols, bb, fb, "geminal")
+        if case is not None:
+            return case
+    return None
+
+
+BRIDGED = {
+    "norbornane": [(0, 1), (1, 2), (2, 3), (3, 4), (4, 5), (5, 0), (0, 6), (6, 3)],
+    "bicyclo[2.1.1]hexane": [(0, 1), (1, 2), (2, 3), (3, 4), (4, 0), (0, 5), (5, 3)],
+    "bicyclo[3.2.1]octane": [(0, 1), (1, 2), (2, 3), (3, 4), (4, 5), (5, 6), (6, 0), (0, 7), (7, 4)],
+}
+
+
+def bicyclo(a, b, c):
+    """bicyclo[a.b.c] skeleton: bridgeheads 0 and 1 joined by three bridges of a, b, c atoms"""
+    bonds, n = [], 2
+    for k in (a, b, c):
+        prev = 0
+        for _ in range(k):
+            bonds.append((prev, n))
+            prev = n
+            n += 1
+        bonds.append((prev, 1))
+    return n, bonds
+
+
+def gen_bridged(rng):
+    """bridged bicyclic skeletons with unequal bridges (cycle bases of different ring sizes for different
+    node / edge orders), a few substituents, substitution / dissociation edits; product relabelled and
+    edge-shuffled by make_product"""
+    for _ in range(50):
+        if rng.random() < 0.5:
+            name = rng.choice(sorted(BRIDGED))
+            cc = list(BRIDGED[name])
+            nc = 1 + max(max(e) for e in cc)
+        else:
+            a, b, c = rng.choice([(2, 2, 1), (2, 1, 1), (3, 2, 1), (3, 1, 1), (2, 2, 0), (3, 2, 0), (3, 2, 2), (3, 1, 0), (2, 1, 0)])
+            nc, cc = bicyclo(a, b, c)
+        syms = ["C"] * nc
+        if rng.random() < 0.3:
+            syms[rng.randrange(nc)] = rng.choice(["N", "Si", "B"])
+        bonds = list(cc)
+        deg = degrees(nc, bonds)
+        room = 12 - nc
+        n_sub = rng.randint(1, max(1, min(3, room - 1)))
+        subs = []
+        for _s in range(n_sub):
+            free = [i for i in range(nc) if deg[i] < 4 - (1 if syms[i] == "N" else 0)]
+            if not free or len(syms) >= 11:
+                break
+            at = rng.choice(free)
+            syms.append(rng.choice(["Cl", "F", "H", "Br", "O"]))
+            bonds.append((at, len(syms) - 1))
+            deg[at] += 1
+            subs.append((at, len(syms) - 1))
+        if not subs:
+            continue
+        mols = [(syms, bonds)]
+        shape = rng.choice(["1b", "1b", "1b1f", "1b1f", "2b", "2b1f", "shift"])
+        bb, fb = [subs[0]], []
+        n1 = len(syms)
+        if shape in ("1b1f", "2b1f") and n1 < 12:
+            mols.append(([rng.choice(["F", "Cl", "H", "O", "I"])], []))
+            fb = [(subs[0][0], n1)]
+        if shape in ("2b", "2b1f"):
+            if len(subs) < 2:
+                continue
+            bb.append(subs[1])
+        if shape == "shift":    # substituent moves to another skeleton atom
+            tgt = [i for i in range(nc) if i != subs[0][0] and deg[i] < 4 and (min(i, subs[0][1]), max(i, subs[0][1])) not in norm_edges(bonds)]
+            if not tgt:
+                continue
+            fb = [(rng.choice(tgt), subs[0][1])]
+        case = _finish_case(rng, mols, bb, fb, "bridged")
+        if case is not None:
+            return case
+    return None
+
+
+def gen_atom_class(rng):
+    """species whose atoms carry atom classes (Atom(..., atom_class=n)): identity substitutions and labelled
+    H exchange made non-isomorphic by the classes, and ordinary edits with some classes sprinkled in"""
+    for _ in range(50):
+        mode = rng.choice(["sn2", "sn2", "h-exchange", "sprinkle", "sprinkle"])
+        if mode == "sn2":
+            x = rng.choice(["Br", "Cl", "F", "I", "O"])
+            syms, bonds = ["C", x], [(0, 1)]
+            for _k in range(rng.randint(0, 3)):
+                syms.append(rng.choice(["H", "H", "H", "F", "C"]))
+                bonds.append((0, len(syms) - 1))
+            mols = [([x], []), (syms, bonds)]
+            # flat: nucleophile 0, carbon 1, leaving group 2
+            classes = [1, None, 2] + [None] * (len(syms) - 2)
+            if rng.random() < 0.3:
+                classes[1] = 3
+            case = _finish_case(rng, mols, [(1, 2)], [(0, 1)], "atom-class", classes=classes)
+        elif mode == "h-exchange":
+            heavy = rng.choice(["C", "N", "O", "Si"])
+            nh = rng.randint(1, MAXVAL[heavy])
+            syms = [heavy] + ["H"] * nh
+            bonds = [(0, i) for i in range(1, nh + 1)]
+            mols = [(["H"], []), (syms, bonds)]
+            classes = [1, None, 2] + [None] * (nh - 1)
+            case = _finish_case(rng, mols, [(1, 2)], [(0, 1)], "atom-class", classes=classes)
+        else:
+            c0 = gen_case(rng, rng.choice([5, 7, 9]), "premise")
+            if c0 is None:
+                continue
+            syms, edges = flat_reactant(c0["reac"])
+            active = sorted({a for e in c0["bb"] + c0["fb"] for a in e})
+            classes = [None] * len(syms)
+            for i in range(len(syms)):
+                if (i in active and rng.random() < 0.5) or rng.random() < 0.15:
+                    classes[i] = rng.randint(1, 3)
+            c0["reac"]["classes"] = classes
+            c0["family"] = "atom-class"
+            c0["prod"] = make_product(rng, syms, edges, c0["bb"], c0["fb"], classes=classes)
+            case = c0
+        if case is not None:
+            return case
+    return None
+
+
 # ============================================================================ implementation runner (worker side)
 class _QueryCap(Exception):
     pass
@@ -283,16 +505,19 @@ def _build(case):
     from autode.mol_graphs import make_graph
     from autode.species.complex import ReactantComplex
     coords = case["reac"]["coords"]
+    rcls = flat_classes(case["reac"])
     mols, off = [], 0
     for k, (syms, bonds) in enumerate(case["reac"]["mols"]):
-        atoms = [Atom(s, *coords[off + i]) for i, s in enumerate(syms)]
+        atoms = [Atom(s, *coords[off + i], atom_class=rcls[off + i]) for i, s in enumerate(syms)]
         m = ade.Species(name=f"r{k}", atoms=atoms, charge=0, mult=1)
         make_graph(m, bond_list=[tuple(b) for b in bonds])
         mols.append(m)
         off += len(syms)
     reactant = mols[0] if len(mols) == 1 and not case.get("force_complex") else ReactantComplex(*mols, name="rc")
     p = case["prod"]
-    patoms = [Atom(s, *[round(0.37 * i + 0.11 * j * j, 3) for j in range(3)]) for i, s in enumerate(p["syms"])]
+    pcls = p.get("classes") or [None] * len(p["syms"])
+    patoms = [Atom(s, *[round(0.37 * i + 0.11 * j * j, 3) for j in range(3)], atom_class=pcls[i])
+              for i, s in enumerate(p["syms"])]
     product = ade.Species(name="p", atoms=patoms, charge=0, mult=1)
     make_graph(product, bond_list=[tuple(b) for b in p["bonds"]])
     return reactant, product
@@ -319,9 +544,12 @@ def run_impl(case, workdir, cap):
         res["r_nodes"] = list(reactant.graph.nodes)
         res["r_labs"] = [labels.index(reactant.graph.nodes[i]["atom_label"]) for i in reactant.graph.nodes]
         res["r_atom_labs"] = [labels.index(a.label) for a in reactant.atoms]
+        res["r_cls"] = [cls_code(reactant.graph.nodes[i].get("atom_class")) for i in reactant.graph.nodes]
+        res["r_atom_cls"] = [cls_code(a.atom_class) for a in reactant.atoms]
         res["r_edges"] = [list(e) for e in reactant.graph.edges]
         res["p_nodes"] = list(product.graph.nodes)
         res["p_labs"] = [labels.index(product.graph.nodes[i]["atom_label"]) for i in product.graph.nodes]
+        res["p_cls"] = [cls_code(product.graph.nodes[i].get("atom_class")) for i in product.graph.nodes]
         res["p_edges"] = [list(e) for e in product.graph.edges]
         res["p_natoms"] = product.n_atoms
         runs = {}
@@ -335,7 +563,10 @@ def run_impl(case, workdir, cap):
                 ans = orig_iso(g1, g2, *a, **k)
                 log.append({"edges": norm_edges(g1.edges), "ans": bool(ans), "t": time.time() - t0,
                             "second_is_product": g2 is product.graph, "extra_args": bool(a or k),
-                            "nodes_ok": list(g1.nodes) == list(reactant.graph.nodes)})
+                            "nodes_ok": list(g1.nodes) == list(reactant.graph.nodes),
+                            "attrs_ok": all(g1.nodes[i].get("atom_label", "C") == reactant.atoms[i].label and
+                                            g1.nodes[i].get("atom_class") == reactant.atoms[i].atom_class
+                                            for i in g1.nodes if i < reactant.n_atoms)})
                 return ans
 
             def strip(brs, mol, *a, **k):
@@ -422,25 +653,27 @@ def _worker(args):
 
 
 # ============================================================================ independent oracles (networkx only)
-def nx_graph(syms, edges):
+def nx_graph(syms, edges, classes=None):
     import networkx as nx
     g = nx.Graph()
     for i, s in enumerate(syms):
-        g.add_node(i, el=s)
+        g.add_node(i, el=s, cls=(classes[i] if classes else None))
     g.add_edges_from([tuple(e) for e in edges])
     return g
 
 
 def nx_iso(g, h):
     import networkx as nx
-    return nx.is_isomorphic(g, h, node_match=lambda a, b: a["el"] == b["el"])
+    # element AND atom class, as the package's node matcher (mol_graphs.py:109-116)
+    return nx.is_isomorphic(g, h, node_match=lambda a, b: a["el"] == b["el"] and a["cls"] == b["cls"])
 
 
 def check_sound(case, outcome):
     """Every returned rearrangement: bbonds in E_r, fbonds not in E_r, applied graph isomorphic to product."""
     syms, edges = flat_reactant(case["reac"])
+    rcls = flat_classes(case["reac"])
     eset = set(norm_edges(edges))
-    hp = nx_graph(case["prod"]["syms"], case["prod"]["bonds"])
+    hp = nx_graph(case["prod"]["syms"], case["prod"]["bonds"], case["prod"].get("classes"))
     problems = []
     for fb, bb in outcome:
         fbn, bbn = norm_edges(fb), norm_edges(bb)
@@ -451,7 +684,7 @@ def check_sound(case, outcome):
         if len(set(fbn)) != len(fbn) or len(set(bbn)) != len(bbn):
             problems.append(f"duplicate bond in rearrangement fbonds={fb} bbonds={bb}")
         new = [e for e in eset if e not in bbn] + [e for e in fbn if e not in eset]
-        if not nx_iso(nx_graph(syms, new), hp):
+        if not nx_iso(nx_graph(syms, new, rcls), hp):
             problems.append(f"applying fbonds={fb} bbonds={bb} to the reactant does not give the product graph")
     return problems
 
@@ -468,7 +701,8 @@ def term_for(case, res, run0, run1):
         pre_out = pre
         nlt = "[" + ";".join(f"({c_rearr(b)},{k})" for b, k in zip(pre, run0["nl_class"])) + "]"
         ringt = "[" + ";".join(f"({c_rearr(b)},{c_nats(r)})" for b, r in zip(pre, run0["rings"])) + "]"
-    common = (f"{c_nats(res['r_labs'])} {c_edges(res['r_edges'])} {c_nats(res['p_labs'])} {c_edges(res['p_edges'])} "
+    common = (f"{c_nats(res['r_labs'])} {c_nats(res['r_cls'])} {c_edges(res['r_edges'])} "
+              f"{c_nats(res['p_labs'])} {c_nats(res['p_cls'])} {c_edges(res['p_edges'])} "
               f"{c_nats(res['mv'])} {tbl} {nlt} {ringt}")
     return f"check_case {common} {c_outcome(pre_out)} {c_outcome(run0['outcome'])} {c_outcome(run1['outcome'])}"
 
@@ -496,28 +730,36 @@ def analyse(ctx, idx, case, res, terms, descr, stats, findings):
         if any((not q["second_is_product"]) or q["extra_args"] or (not q["nodes_ok"]) for q in r["log"]):
             fail("iso-call-shape", "is_isomorphic was not called as (graph on the reactant's nodes, product.graph)")
             return
+        if any(not q["attrs_ok"] for q in r["log"]):
+            fail("rearranged-graph-attributes", "a graph passed to is_isomorphic does not carry the reactant's atom_label / "
+                 "atom_class node attributes (the node matcher compares both)")
     if [(q["edges"], q["ans"]) for q in r0["log"]] != [(q["edges"], q["ans"]) for q in r1["log"]]:
         fail("nondeterministic", "the sequence of isomorphism queries differs between two runs of the same input")
         return
     if res["r_nodes"] != list(range(len(res["r_nodes"]))) or res["p_nodes"] != list(range(len(res["p_nodes"]))) \
-            or res["r_labs"] != res["r_atom_labs"]:
+            or res["r_labs"] != res["r_atom_labs"] or res["r_cls"] != res["r_atom_cls"]:
         fail("node-order", "graph nodes are not 0..n-1 in atom order")
         return
     syms, edges = flat_reactant(case["reac"])
+    rcls = flat_classes(case["reac"])
     nq = len(r0["log"])
+    ctx.hist(stream, "family=" + case.get("family", "random"))
     ctx.hist(stream, f"atoms={len(syms)}")
     ctx.hist(stream, f"edit={len(case['bb'])}b{len(case['fb'])}f")
     ctx.hist(stream, "mols=%d" % len(case["reac"]["mols"]))
     if case["kind"] == "premise":
         ctx.hist(stream, "type-pattern(nb,nf per bond type)=" + type_pattern(syms, case["bb"], case["fb"]))
-    # independent isomorphism answers vs the logged ones (validates the Hiso assumption on these inputs)
-    hp = nx_graph(case["prod"]["syms"], case["prod"]["bonds"])
+    # Hiso, the premise of the theorems: every logged answer of is_isomorphic(graph, product.graph) is validated
+    # against networkx's own isomorphism with element + atom_class node match on independently built graphs
+    hp = nx_graph(case["prod"]["syms"], case["prod"]["bonds"], case["prod"].get("classes"))
     for q in r0["log"]:
-        if q["ans"] != nx_iso(nx_graph(syms, q["edges"]), hp):
-            fail("is_isomorphic-wrong", f"is_isomorphic answered {q['ans']} for edges {q['edges']} vs the product; "
-                 f"networkx with element matching says {not q['ans']}")
+        stats["hiso_checked"] = stats.get("hiso_checked", 0) + 1
+        if q["ans"] != nx_iso(nx_graph(syms, q["edges"], rcls), hp):
+            fail("Hiso:is_isomorphic-disagrees-with-networkx",
+                 f"is_isomorphic answered {q['ans']} for the reactant atoms with bonds {q['edges']} against the product; "
+                 f"networkx isomorphism with element + atom_class matching says {not q['ans']}")
             break
-    r_iso_p = nx_iso(nx_graph(syms, edges), hp)
+    r_iso_p = nx_iso(nx_graph(syms, edges, rcls), hp)
     for r in (r0, r1):
         out = r["outcome"]
         tag = f"skip_small_ring_tss={r['skip']}"
@@ -563,7 +805,8 @@ def analyse(ctx, idx, case, res, terms, descr, stats, findings):
             ctx.hist(stream, "strip/prune-removed-some")
         if isinstance(r1["outcome"], list) and len(r1["outcome"]) < n_out:
             ctx.hist(stream, "small-ring-prune-removed-some")
-    key = (json.dumps(case["reac"]["mols"]), json.dumps(case["bb"]), json.dumps(case["fb"]), json.dumps(case["prod"]["perm"]))
+    key = (json.dumps(case["reac"]["mols"]), json.dumps(case["bb"]), json.dumps(case["fb"]), json.dumps(case["prod"]["perm"]),
+           json.dumps(case["reac"].get("classes")))
     ctx.count(stream, key, nontrivial=(nq > 1),
               sample={"reactant": case["reac"]["mols"], "bbonds": case["bb"], "fbonds": case["fb"],
                       "result": r0["outcome"], "n_iso_queries": nq})
@@ -707,6 +950,13 @@ def build_cases(ctx):
             syms, edges = flat_reactant(c["reac"])
             c["prod"] = make_product(rng, syms, edges, c["bb"], c["fb"], extra=("foreign-element" if kind == "foreign" else None))
             cases.append(c)
+    # directed families (DESIGN K / round-2 seeded defects): saturated centre in both breaking and both forming
+    # bonds; bridged bicyclic skeletons; atom-class labelled species
+    for gen, n in ((gen_geminal, 22), (gen_bridged, 36), (gen_atom_class, 28)):
+        for i in range(n if quick else 8 * n):
+            c = gen(rng)
+            if c is not None:
+                cases.append(c)
     # exhaustive edits of a few small reactants (all valence-respecting edits with <=2/<=2 bonds)
     n_exh = 2 if quick else 10
     lim = 60 if quick else 400
@@ -775,6 +1025,7 @@ def run(ctx):
     saveload_stream(ctx, ctx.rng, 40 if ctx.quick else 300, stats["saved"], terms, descr, findings)
     ctx.cov["discarded"] = {"query_cap": stats["cap_discarded"], "iso_timeout": stats["timeout_discarded"]}
     ctx.cov["iso_queries_total"] = stats["queries"]
+    ctx.cov["hiso_answers_validated_against_networkx"] = stats.get("hiso_checked", 0)
     ctx.cov["notes"] = ["file-name mismatch: results are saved as {name}_BRs.txt but looked up as {name}_bond_rearrangs.txt "
                         "(outside the property statement; the round trip is checked on the file that is written)"]
     ctx.log(f"oracles: {len(findings)} failures; discarded cap={stats['cap_discarded']} timeout={stats['timeout_discarded']}; "
